@@ -211,6 +211,16 @@ def obligations():
                     if isinstance(x, ast.Call) and isinstance(x.func, ast.Attribute) and isinstance(x.func.value, ast.Name) \
                             and x.func.value.id == nm and x.func.attr in ORDER_SENSITIVE_METHODS:
                         bad.append('mutable default `%s` is mutated at line %d' % (nm, x.lineno))
+                    # ... or escapes: stored in an attribute / container / other name, returned, or handed to a call (whoever receives
+                    # it may mutate the one object shared by all calls)
+                    if isinstance(x, ast.Assign) and any(isinstance(y, ast.Name) and y.id == nm for y in ast.walk(x.value)) \
+                            and not all(isinstance(t, ast.Name) and t.id == nm for t in x.targets):
+                        bad.append('mutable default `%s` escapes through the assignment at line %d' % (nm, x.lineno))
+                    if isinstance(x, ast.Return) and x.value is not None and any(isinstance(y, ast.Name) and y.id == nm for y in ast.walk(x.value)):
+                        bad.append('mutable default `%s` is returned at line %d' % (nm, x.lineno))
+                    if isinstance(x, ast.Call) and any(isinstance(a, ast.Name) and a.id == nm for a in list(x.args) + [k.value for k in x.keywords]) \
+                            and ast.unparse(x.func) not in ('len', 'isinstance', 'list', 'tuple', 'set', 'dict', 'sorted', 'iter', 'enumerate', 'zip', 'sum', 'min', 'max', 'any', 'all'):
+                        bad.append('mutable default `%s` is handed to `%s` at line %d' % (nm, ast.unparse(x.func)[:30], x.lineno))
         ob('no-mutable-default-state:%s' % name, name, not bad, '; '.join(bad))
 
     # (iii) + (iv) for the continuous-time simulators and everything they reach
